@@ -137,14 +137,15 @@ def check(case) -> CaseResult:
                     from rexverif.probes import POut
                     import jax.numpy as jnp
 
+                    # reset + max_steps step() calls: partitions 0..N (the last column of the schedule included), supervisor steps 0..N-1
                     out, ss = reset(gs)
-                    for i in range(N - 1):
+                    for i in range(N):
                         if i % 2 == 1:
                             out, ss = step(out, ss, POut(a=jnp.array([run.sup.nid, -7, 4242, 0], dtype=jnp.int32)))
                             overridden.add(i)
                         else:
                             out, ss = step(out)
-                    parts, sup_steps = N, N - 1
+                    parts, sup_steps = N + 1, N
                 jax.block_until_ready(out.step)
                 B = run.trace.by_key()
                 run.trace.clear()
